@@ -78,6 +78,7 @@ CHECKS.update({
 })
 CHECKS["C04"]["text"] += " The level selection itself is specified in spec/TcbLevels.tla (declarative first match vs the loops as coded, module identities, all seven statuses) and every case runs through verify.TdxQuote and SupportedTcbLevelsFromCollateral."
 CHECKS["C07"]["text"] += " QE level lists of up to two (thorough: three) levels in any order with all seven statuses are specified in spec/TcbLevels.tla and run through verify.TdxQuote."
+CHECKS["C11"]["text"] += " A second part runs the composition spec/TdxGuestSystem.tla end to end through every package (scripted guest device, client.GetRawQuote, transit alteration, abi.QuoteToProto, verify, validate, ParseCcelWithTdQuote): an honest run must be delivered at every level."
 CHECKS["C12"]["text"] += " Histories (spec/VerifyHistory.tla): two calls in one process over worlds that share keys and deterministic signatures (honest twin, faulty world, other platform), through one shared Options value or fresh ones, every call judged by all single-call properties; plus one timed history with the wall-clock time set."
 
 ENGINES += [
@@ -105,6 +106,9 @@ CHECKS.update({
                 "the library's error classes for failed downloads are checked with errors.As.", note=TRUST),
 })
 ENGINES += [
+    {"name": "system", "path": "spec/TdxGuestSystem.tla", "serves_properties": ["C11"], "kind_free_text": "composition of guest client, wire format, verification, validation and event-log replay; end-to-end driver"},
+    {"name": "tcblevels", "path": "spec/TcbLevels.tla", "serves_properties": ["C04", "C07"], "kind_free_text": "TLA+ spec of Intel's TCB level selection (declarative first match vs loops)"},
+    {"name": "history", "path": "spec/VerifyHistory.tla", "serves_properties": ["C12"], "kind_free_text": "TLA+ spec of call histories through a shared Options value"},
     {"name": "sharedquote", "path": "spec/SharedQuote.tla", "serves_properties": ["C16"], "kind_free_text": "TLA+ spec of memory cells and concurrent calls + TLC + snapshot / race-detector driver"},
     {"name": "ccel", "path": "spec/Ccel.tla", "serves_properties": ["C18"], "kind_free_text": "TLA+ spec of ParseCcelWithTdQuote's gates + TLC + sample-log driver"},
     {"name": "checktool", "path": "spec/CheckTool.tla", "serves_properties": ["C19"], "kind_free_text": "TLA+ spec of the check tool's merge and exit codes + TLC + process driver with fake PCS"},
